@@ -12,7 +12,10 @@
       writing, breaks exactly this; the `c14-midwrite` scripts exercise it on the implementation);
     * over a fault-free transport that keeps accepting the handler ends with the model's `wok = true` result, over a failing
       one with its `wok = false` result: the Boolean of `World` loses nothing but the suspension
-      (`handler_over_a_good_transport_is_the_model`, `handler_over_a_failing_transport_is_the_model`).
+      (`handler_over_a_good_transport_is_the_model`, `handler_over_a_failing_transport_is_the_model`);
+    * for an inbound packet (`handlePktOver`): whatever becomes of the acknowledgement's write — taken, cut, delayed for
+      good, failed — the client's bookkeeping is that of the successful handler (`inbound_bookkeeping_independent_of_the_transport`)
+      and the wire holds a prefix of the acknowledgement, all of it exactly when the write completed (`inbound_ack_on_the_wire`).
 -/
 import PosterModel.Properties.ActionOrder
 import PosterModel.Lemmas.TxStream
@@ -103,6 +106,31 @@ theorem handler_over_a_failing_transport_is_the_model (c : Ctx) (m : Msg) (evs :
   simp only [hw, Bool.false_eq_true, if_false, handleMsgAfter, he]
 
 
+/-! ## inbound packets: the acknowledgement over every transport -/
+
+/-- **Whatever the transport does with the acknowledgement — takes it, cuts it, delays it for good, fails — the client's
+    bookkeeping is the same**: inbound QoS 2 identifiers, subscriptions, quota, waiters are those of the handler that wrote
+    successfully. (The deliveries to the streams precede the write: `publish_ack_is_written_last`.) -/
+theorem inbound_bookkeeping_independent_of_the_transport (c : Ctx) (alive : Nat → Bool) (p : RxPacket) (evs : List WEv) :
+    (handlePktOver c alive p evs).1.ctx = (c.handlePkt alive p true).1 := by
+  unfold handlePktOver
+  have hf := (ack_write_fault_changes_only_the_outcome c alive p).1
+  split
+  · rfl
+  · rename_i ack _
+    cases ho : (writeAll ack evs).1.out <;> simp only [ho, HOut.ctx, hf]
+
+/-- the wire gets a prefix of the acknowledgement, all of it exactly when the write completed -/
+theorem inbound_ack_on_the_wire (c : Ctx) (alive : Nat → Bool) (p : RxPacket) (evs : List WEv) (ack : Bytes)
+    (h : ackOf c alive p = some ack) :
+    (handlePktOver c alive p evs).2.1 <+: ack ∧
+    ((writeAll ack evs).1.out = .done → (handlePktOver c alive p evs).2.1 = ack) := by
+  unfold handlePktOver
+  simp only [h]
+  have hc := writeAll_conserves_aux evs ack
+  refine ⟨⟨_, hc⟩, fun hd => ?_⟩
+  rwa [writeAll_done_aux evs ack hd, List.append_nil] at hc
+
 /-! ## non-vacuity -/
 example : (handleMsgOver {} (.ff [0xc0, 0x00] 4) [.accept 0, .pending, .accept 0]).1 matches .finished _ _ _ := by decide
 example : (handleMsgOver {} (.ff [0xc0, 0x00] 4) [.accept 0, .pending]).2.1 = [0xc0] := by decide
@@ -115,3 +143,5 @@ end Poster
 #print axioms Poster.suspended_handler_has_told_nobody
 #print axioms Poster.handler_over_a_good_transport_is_the_model
 #print axioms Poster.handler_over_a_failing_transport_is_the_model
+#print axioms Poster.inbound_bookkeeping_independent_of_the_transport
+#print axioms Poster.inbound_ack_on_the_wire
